@@ -208,6 +208,7 @@ Section Cap.
   Qed.
 
   (* ---------- step 1: the in-use entries ---------- *)
+  Section Fold.
   Variable len_of : N -> option N.
 
   Definition xa_G1 (ke : N * xentry) : option sobj :=
@@ -399,5 +400,112 @@ Section Cap.
       apply in_map_iff in Hk. destruct Hk as [[n e] [En Hin]]. cbn [fst] in En. subst n.
       rewrite (xs_lookup_ent_nodup tab (ren r) e xa_tab_nodup Hin).
       destruct e; cbn [xs_to_xentry]; try discriminate. exfalso. apply (xa_tab_nofree (ren r)). exact Hin.
+  Qed.
+  End Fold.
+
+  Lemma xa_filter_ext : forall (A : Type) (f g : A -> bool) l, (forall a, f a = g a) -> filter f l = filter g l.
+  Proof. intros A f g l H. induction l as [|a t IH]; [reflexivity|]. cbn [filter]. rewrite H, IH. reflexivity. Qed.
+
+  Lemma xa_forall2_map : forall (A B : Type) (f : A -> B) l l', Forall2 (fun a b => b = f a) l l' -> l' = map f l.
+  Proof. intros A B f l l' H. induction H; [reflexivity|]. cbn [map]. subst. reflexivity. Qed.
+
+  Lemma xa_dict_noenc : dict_get (xp_xref_dict d) k_Encrypt = None.
+  Proof.
+    apply dict_get_none. intros H. apply xk_dict_keys in H.
+    destruct H as [H | [H | [H | [H | H]]]]; try discriminate. exact (Henc H).
+  Qed.
+
+  (* the relation satisfied by what step 2 collects for one entry *)
+  Definition xa_R2 (ke : N * xentry) (r : list sobj) : Prop :=
+    match ke with
+    | (k, XComp stm idx) =>
+        exists c, r = [c] /\ so_num c = k /\ so_gen c = 0 /\ so_where c = XComp stm idx /\ so_stream c = None
+          /\ exists kk m, In (XsStm kk) (xs_items d) /\ stm = sren kk /\ nth_error (xs_members p kk) (N.to_nat idx) = Some m
+                          /\ k = ren m /\ so_val c = to_pobj (d_objects d) ren (i_val (xs_lookup (d_objects d) m))
+    | _ => r = []
+    end.
+
+  Let G0 : N -> option N := fun _ => None.
+
+  Definition xa_P (f : sfile) : Prop :=
+    sf_version f = xs_version (d_version d) /\ sf_sections f = 1 /\ sf_xref_stream f = true
+    /\ sf_trailer f = xp_xref_dict d /\ sf_startxref f = xs_l_xref_off L /\ sf_regions f = xr_regions d
+    /\ exists rs2, Forall2 xa_R2 XR rs2 /\ sf_objs f = rev (xa_C G0) ++ rev (concat rs2).
+
+  Lemma xa_main : match read_strict out with RsOk f => xa_P f | RsErr _ _ => False end.
+  Proof.
+    destruct (xs_header_parses_lemma d W Hel) as [after_hdr [Hhdr Hhend]]. fold out in Hhdr, Hhend. fold total in Hhend. fold L in Hhend.
+    destruct (xs_tail_parses_lemma d Hel) as [Hfl Htail]. fold L out in Hfl, Htail.
+    destruct (xs_xref_section_reads_lemma d W Hel Htt Hoff Hid) as [ox [Hsec [Hoxn [Hoxg [Hoxw [Hoxe [Hsize Hprev]]]]]]].
+    fold L out in Hsec. fold total in Hsec. fold L in Hoxn, Hoxw, Hoxe, Hsize.
+    destruct (xs_merged_table_lemma (xs_l_entries L)) as [Hmerge [Hxnd Hmax]].
+    set (sx := xs_l_xref_off L + xr_xref_len d) in *.
+    unfold read_strict. fold total. rewrite Hhdr, Hfl, Htail. cbn [negb].
+    cbn [read_chain existsb]. rewrite Hsec. cbn [sec_dict]. rewrite Hprev.
+    cbn [hd fold_left sec_entries sec_dict]. rewrite Hmerge. fold XR. fold XR in Hxnd, Hmax.
+    pose proof xa_dict_noenc as Hne. unfold k_Encrypt in Hne. rewrite Hne. clear Hne.
+    (* step 1 *)
+    match goal with |- match match fold_left ?F _ _ with inl _ => _ | inr _ => _ end with RsOk _ => _ | RsErr _ _ => _ end =>
+      destruct (xa_fold_rel _ _ _ F (fun ke r => r = xa_opt (xa_G1 G0 ke)) XR []) as [rs1 [HF1 HE1]] end.
+    { intros [k e] Hke. exists (xa_opt (xa_G1 G0 (k, e))). split; [reflexivity|]. split.
+      - destruct (xa_G1 G0 (k, e)); cbn; lia.
+      - intros objs. cbv beta iota. destruct e as [a b | off g | a b]; try reflexivity.
+        destruct (xs_inuse_entries_read_lemma d W Hel Htt k off g Hke) as [o [Hp [Hn [Hg _]]]]. fold out in Hp. fold total in Hp.
+        rewrite (Hp _). unfold xa_G1. rewrite (Hp G0). rewrite Hn, Hg, !N.eqb_refl. reflexivity. }
+    rewrite HE1. apply xa_forall2_map in HF1.
+    assert (HC : concat rs1 = xa_C G0) by (rewrite HF1; unfold xa_C; rewrite flat_map_concat_map; reflexivity).
+    rewrite HC, app_nil_r. clear HE1.
+    (* step 2 *)
+    match goal with |- match match fold_left ?F _ _ with inl _ => _ | inr _ => _ end with RsOk _ => _ | RsErr _ _ => _ end =>
+      destruct (xa_fold_rel _ _ _ F xa_R2 XR []) as [rs2 [HF2 HE2]] end.
+    { intros [k e] Hke. destruct e as [a b | off g | stm idx];
+        try (exists []; split; [reflexivity | split; [cbn; lia | intros; reflexivity]]).
+      assert (Hin : In (k, XsIn stm idx) tab).
+      { destruct (xe_entry_cases d k _ Hke) as [[_ E] | [[_ E] | [Hk E]]]; try discriminate.
+        destruct (xs_lookup_ent_in (xs_l_table (xs_L d)) k) as [E0 | Hin]; [rewrite E0 in E; discriminate|].
+        destruct (xs_lookup_ent (xs_l_table (xs_L d)) k); cbn [xs_to_xentry] in E; try discriminate. injection E as <- <-. exact Hin. }
+      pose proof (xa_comp_read d W Hel k stm idx Hin) as HC2. cbv zeta in HC2. fold out in HC2. fold total in HC2.
+      destruct HC2 as [q [o [dct [doff [len [nn [first [data [pairs [ooff [v [rest [kk [m
+        [Hit [Hstm [Hm [Hkm [Hv [Htq [Hp [Hon [Hoval [Hostr [HT [HN [HFi [Hdec [Hpairs [Hnth Hparse]]]]]]]]]]]]]]]]]]]]]]]]]]]]]].
+      exists [{| so_num := k; so_gen := 0; so_where := XComp stm idx; so_val := v; so_stream := None; so_end := 0 |}].
+      split; [| split; [cbn; lia|]].
+      - cbn [xa_R2]. eexists. split; [reflexivity|]. cbn [so_num so_gen so_where so_stream so_val]. repeat split.
+        exists kk, m. repeat split; assumption.
+      - intros cobjs. cbv beta iota. rewrite (xa_find_stream G0 stm q o Htq (Hp G0) Hon).
+        rewrite Hoval, Hostr, HT, HN, HFi. change (negb (beq n_ObjStm n_ObjStm)) with false. cbv iota.
+        rewrite Hdec, Hpairs, Hnth, N.eqb_refl. cbn [negb]. rewrite Hparse. reflexivity. }
+    rewrite HE2. clear HE2. rewrite app_nil_r.
+    (* /Size *)
+    rewrite Hsize.
+    assert (Hsz : max_num XR 0 + 1 = xs_l_xref_id L + 1).
+    { pose proof (xs_entries_length d) as Hl. fold L in Hl. rewrite Hmax; [rewrite Hl; lia|]. intros E. rewrite E in Hl. cbn in Hl. lia. }
+    rewrite Hsz, N.eqb_refl. cbn [negb].
+    (* /Root *)
+    destruct (xa_root G0) as [rn [e [Hr [Hlk Hnf]]]]. rewrite Hr, Hlk.
+    assert (Hsort : sort_regions ((0, offset_of total after_hdr) :: (sx, total)
+                 :: map sec_region [{| sec_entries := rev XR; sec_dict := xp_xref_dict d; sec_is_stream := true;
+                                       sec_region := (xs_l_xref_off L, sx); sec_tail_value := 0; sec_obj := Some ox |}]
+                 ++ map (fun o : sobj => (match so_where o with XInUse off _ => off | _ => 0 end, so_end o))
+                        (filter (fun o : sobj => negb (existsb (fun s : section => match sec_obj s with
+                                                                                   | Some x => so_num x =? so_num o
+                                                                                   | None => false end)
+                                  [{| sec_entries := rev XR; sec_dict := xp_xref_dict d; sec_is_stream := true;
+                                      sec_region := (xs_l_xref_off L, sx); sec_tail_value := 0; sec_obj := Some ox |}]))
+                                (rev (xa_C G0)))
+                 ++ []) = xr_regions d).
+    { cbn [map sec_region existsb sec_obj].
+      rewrite (xa_filter_ext _ _ (fun o => negb (so_num (xa_xobj G0) =? so_num o)))
+        by (intros o; rewrite Hoxn, (proj2 (xa_xobj_spec G0)), Bool.orb_false_r; reflexivity).
+      change (fun o : sobj => (match so_where o with XInUse off _ => off | _ => 0 end, so_end o)) with region_of.
+      rewrite (xa_body_regions G0), Hhend, app_nil_r.
+      pose proof (xs_sort_regions_lemma d Hel) as Hs. cbv zeta in Hs. fold L out total sx in Hs.
+      change ((xs_l_xref_off L, sx) :: rev (xr_regs (xs_chunk' d) (xs_l_items L) (N.of_nat (length (xs_l_hdr L)))))
+        with ([(xs_l_xref_off L, sx)] ++ rev (xr_regs (xs_chunk' d) (xs_l_items L) (N.of_nat (length (xs_l_hdr L))))).
+      exact Hs. }
+    pose proof (xs_regions_ok_lemma d Hel) as Hreg. fold out total in Hreg.
+    cbn [flat_map sec_entries]. rewrite (xa_old_regions (length out)). change (@nil (N * N) ++ []) with (@nil (N * N)).
+    destruct e as [a b | a b | a b]; [exfalso; exact (Hnf a b eq_refl) | |];
+      (rewrite Hsort, Hreg; unfold xa_P; cbn [sf_version sf_sections sf_xref_stream sf_trailer sf_startxref sf_regions sf_objs length];
+       repeat split; exists rs2; split; [exact HF2 | reflexivity]).
   Qed.
 End Cap.
